@@ -3,6 +3,7 @@ pub mod corpus;
 pub mod drivers;
 pub mod engine;
 pub mod families;
+pub mod graph;
 pub mod interp;
 pub mod run;
 pub mod sched;
@@ -45,6 +46,10 @@ pub fn main_entry(hooks: bool) {
             Err(e) => machinery(&e),
         },
         "observe" => checks::c06::observe_main(),
+        "worker" => {
+            let name = args.get(1).cloned().unwrap_or_default();
+            checks::worker(&name).unwrap_or_else(|| machinery(&format!("unknown worker {name}")));
+        }
         "gen-polkadot" => {
             // debugging aid: hash of de-duplicated + generated Polkadot module
             let mut r = run::polkadot_registry();
